@@ -1,3 +1,5 @@
--- This module serves as the root of the `Hg` library.
--- Import modules here that should be built as part of the library.
-import Hg.Basic
+import Hg.Model.Val
+import Hg.Model.Agg
+import Hg.Model.Leaf
+import Hg.Model.Route
+import Hg.Model.Ops
